@@ -133,6 +133,17 @@ static void dynamic_bulk(Ctx &c, const char *name, int maxlen) {
                 if (sorted) { c.run.add(c.cn.valid); if (o != ACCEPTED) c.run.violation(cs, std::string("sorted bulk-load range was rejected with ") + oname(o)); }
                 else { c.run.add(c.cn.invalid); if (o != INVALID_ARGUMENT) c.run.violation(cs, std::string("unsorted bulk-load range: expected std::invalid_argument, got ") + oname(o)); }
             }
+            // the reserved mapped value at every position of an otherwise valid bulk-load range
+            if (sorted)
+                for (int pos = 0; pos < len; ++pos) {
+                    auto bad = pairs; bad[pos].second = std::numeric_limits<K>::max();
+                    std::string cs2 = cs + " reserved_value_at=" + std::to_string(pos);
+                    c.run.set_case(cs2); c.run.add(c.cn.invalid);
+                    Outcome o = outcome_of([&] { D d(bad.begin(), bad.end(), uint8_t(2), uint8_t(1), uint8_t(2)); (void) d.size(); });
+                    // a repeated key keeps only its first pair, so a reserved value in a dropped duplicate is never stored
+                    bool dropped = pos > 0 && bad[pos].first == bad[pos - 1].first;
+                    if (o != INVALID_ARGUMENT && !dropped) c.run.violation(cs2, std::string("bulk-load with the reserved mapped value: expected std::invalid_argument, got ") + oname(o));
+                }
             int i = len - 1; while (i >= 0 && ++idx[i] == int(vals.size())) { idx[i] = 0; --i; }
             if (i < 0) break;
         }
